@@ -828,9 +828,13 @@ def run_multi(c, ctx):
         com_v = [(mm0 * mpf(star[3 + k]) + mm1 * mpf(plan[3 + k])) / mM for k in range(3)]
         mdt = mpf(dt)
         # documented structure: safe_mode=1: (D/2 K D/2) per step; safe_mode=0: D/2 K (D K)^(m-1) D/2
-        pieces = [mdt / 2, mdt / 2] * m if sm == 1 else [mdt / 2] + [mdt] * (m - 1) + [mdt / 2]
+        # (with variational particles and keep_unsynchronized=0 WHFast synchronizes after every step even with
+        # safe_mode=0; both sequences are legitimate implementations, so safe_mode=0 is allowed the larger allowance)
         K = k_of(o["dtP"])
-        tpos, tvel = chain_allowance(KM, rel_r, rel_v, mum, pieces, K)
+        tpos, tvel = chain_allowance(KM, rel_r, rel_v, mum, [mdt / 2, mdt / 2] * m, K)
+        if sm == 0:
+            tp2, tv2 = chain_allowance(KM, rel_r, rel_v, mum, [mdt / 2] + [mdt] * (m - 1) + [mdt / 2], K)
+            tpos, tvel = max(tpos, tp2), max(tvel, tv2)
         refr, refv = KM.propagate(rel_r, rel_v, mum, mdt * m)
         T = mdt * m
         com1 = [com_r[k] + com_v[k] * T for k in range(3)]
@@ -875,7 +879,7 @@ def subs(tier):
             shards_thorough=16),
         Sub("step", run_step, strategy=step_case([k for k in SCHEMES if k != "whfast512"], G_CHOICES),
             quick=1200, thorough=40000, shards_quick=8, shards_thorough=16),
-        Sub("multistep", run_multi, strategy=multi_case, quick=320, thorough=8000, shards_quick=8, shards_thorough=16),
+        Sub("multistep", run_multi, strategy=multi_case, quick=240, thorough=8000, shards_quick=8, shards_thorough=16),
         Sub("step512", run_step, strategy=step_case(["whfast512"], [1.0], w512=True), variant="avx512",
             quick=640, thorough=16000, shards_quick=4, shards_thorough=8),
     ]
